@@ -342,6 +342,32 @@ pub fn all_node_ids(tree: &tree_sitter::Tree) -> Vec<usize> {
     ids
 }
 
+/// Number of zero-width nodes (error recovery artefacts, empty blocks) in the tree.
+pub fn all_nodes_zero_width(tree: &tree_sitter::Tree) -> usize {
+    let mut count = 0;
+    let mut cursor = tree.walk();
+    let mut done = false;
+    while !done {
+        let n = cursor.node();
+        if n.start_byte() == n.end_byte() {
+            count += 1;
+        }
+        if cursor.goto_first_child() {
+            continue;
+        }
+        loop {
+            if cursor.goto_next_sibling() {
+                break;
+            }
+            if !cursor.goto_parent() {
+                done = true;
+                break;
+            }
+        }
+    }
+    count
+}
+
 /// Counts pairs of distinct nodes in `tree` whose ids agree in the low 32 bits.
 pub fn id_collisions(tree: &tree_sitter::Tree) -> (usize, usize) {
     let mut ids: Vec<usize> = Vec::new();
